@@ -231,6 +231,9 @@ def verb_programs(built):
                        m=pdt.max(a.i64 * 2, 1), c2=pdt.when(a.k > 1).then(a.i64 + 1).otherwise(0), s2=(a.i64 * 2).sum())),
         ("union-const-columns", lambda: a >> pdt.select(a.k) >> pdt.mutate(w=1, f=None, s=1, d=2.5) >> pdt.union(b >> pdt.select(b.k) >> pdt.mutate(w=0.5, f=True, s=2, d=b.i8))
          >> pdt.mutate(w2=C.w * 2, s2=C.s + 1)),
+        ("window-float-fill", lambda: a >> pdt.mutate(sr=a.i8.shift(1, 2.5, arrange=a.k).round(1), sf=a.i64.shift(-1, 0.5, arrange=a.k), inv=~(a.b & a.b), inv2=~(a.b | (a.k > 1)))),
+        ("union-int-float-empty-right", lambda: a >> pdt.select(a.k, a.i64) >> pdt.union(b >> pdt.mutate(i64=b.f32) >> pdt.select(b.k, C.i64) >> pdt.filter(b.k > 99))
+         >> pdt.mutate(s=C.i64.cast(pdt.String()), h=C.i64 / 2)),
         ("slice-arrange", lambda: a >> pdt.arrange(a.k) >> pdt.slice_head(1)),
     ]
 
